@@ -215,6 +215,16 @@ func Mul(a, b Term) Term {
 	return app(SInt, "*", a, b)
 }
 
+// Sidx is the absolute index off+i of element i of a slice at offset off. It is an uninterpreted
+// function with the defining axiom (pattern on sidx) so that quantified facts about slice elements
+// can be instantiated by E-matching: no arithmetic has to be solved to match an index.
+func Sidx(off, i Term) Term {
+	if off.S == "0" {
+		return i
+	}
+	return app(SInt, "sidx", off, i)
+}
+
 func Lt(a, b Term) Term { return app(SBool, "<", a, b) }
 func Le(a, b Term) Term { return app(SBool, "<=", a, b) }
 func Gt(a, b Term) Term { return app(SBool, ">", a, b) }
@@ -276,6 +286,8 @@ const basePrelude = `
 (declare-fun str_len (Int) Int)
 (declare-fun str_cat (Int Int) Int)
 (assert (= (str_len 0) 0))
+(declare-fun sidx (Int Int) Int)
+(assert (forall ((o Int) (i Int)) (! (= (sidx o i) (+ o i)) :pattern ((sidx o i)))))
 (define-fun imin ((a Int) (b Int)) Int (ite (<= a b) a b))
 (define-fun imax ((a Int) (b Int)) Int (ite (>= a b) a b))
 `
